@@ -302,6 +302,27 @@ def run(ctx):
                         "I": [fhex(x) for x in res["currents"][:, j]]})
             ctx.count("cuba_reference_runs"); ctx.count("cuba_reference_steps", T)
     ctx.compare("cuba_run", cases, obs, reqs)
+    # the same run fed in two chunks to one model object (or step by step through forward()) is the run on the whole input:
+    # the state carries over from call to call
+    for _ in range(ctx.n(20, 100)):
+        nn = rng.randrange(1, 4); T = rng.randrange(2, 25); k = rng.randrange(1, T)
+        g = np.random.default_rng(rng.randrange(2 ** 32))
+        mk = lambda: nir.CubaLIF(tau_syn=tsyn.copy(), tau_mem=tmem.copy(), r=rr.copy(), v_leak=vl.copy(), v_threshold=vt.copy(), w_in=ww.copy())
+        tsyn, tmem, rr, vl, vt, ww = (g.uniform(1e-3, 0.1, nn), g.uniform(1e-3, 0.1, nn), g.uniform(-2, 2, nn), g.uniform(-1, 1, nn),
+                                      g.uniform(0.2, 2, nn), g.uniform(-2, 2, nn))
+        dt = float(10 ** rng.uniform(-4, -2))
+        data = (g.random((T, nn)) < 0.4).astype(float) * g.uniform(0.5, 5)
+        case = {"op": "cuba_run_chunked", "n": nn, "steps": T, "split": k, "dt": dt}
+        ctx.case(case); ctx.count("cuba_reference_runs_chunked")
+        whole = cuba.run_cuba_reference_model(cuba.CubaLIFImplementation(dt, mk()), data)
+        m2 = cuba.CubaLIFImplementation(dt, mk())
+        a = cuba.run_cuba_reference_model(m2, data[:k]); b = cuba.run_cuba_reference_model(m2, data[k:])
+        bad = [key for key in ("spikes", "voltages", "currents")
+               if not np.array_equal(np.concatenate([a[key], b[key]]), whole[key])]
+        if bad:
+            ctx.violate(case, "the CubaLIF reference run fed in two chunks to one model differs from the run on the whole input "
+                        "(the state does not carry over between calls)", {"site": "run_cuba_reference_model", "what": "chunked"},
+                        observed=bad)
     # ---- closed-form kernels ---------------------------------------------------------------
     for _ in range(ctx.n(400)):
         p = params(rng, lif)
